@@ -27,17 +27,35 @@ def run_cases(ctx, cases, label, scratch):
         finally:
             scratch.cleanup(b, s)
         impl_res.append(r)
-        reqs.append(ET.model_request(c.tree, c.top, c.opts, c.allow_create, c.allow_xdev, c.ops,
-                                     GT.order_key_for(c.meta.get('order_seed', 0)), c.hash_names, c.faults))
-    model = run_model(reqs, jobs=16)
+        rq = ET.model_request(c.tree, c.top, c.opts, c.allow_create, c.allow_xdev, c.ops,
+                              GT.order_key_for(c.meta.get('order_seed', 0)), c.hash_names, c.faults)
+        ET.preseed_oracles(rq, r)
+        reqs.append(rq)
+    model = ET.run_model_completing(reqs)
     out = []
     for c, i, m in zip(cases, impl_res, model):
+        links = c.tree.link_paths()
+        i, m = canon_result(i, links), canon_result(m, links)
         if i != m:
             ctx.violation('correspondence', f'{label}: model and implementation differ',
                           {'where': label, 'meta': {k: v for k, v in c.meta.items() if k != 'paths'}, 'ops': c.ops,
                            'impl': i, 'model': m, 'tree': describe(c.tree)})
         out.append((c, i, m))
     return out
+
+
+def canon_result(x, links=()):
+    """order- and clock-independent form of results that list files"""
+    if isinstance(x, list) and len(x) == 2 and x[0] == 'ok' and isinstance(x[1], list):
+        out = []
+        for y in x[1]:
+            if isinstance(y, list) and len(y) == 2 and y[0] == 'ok' and isinstance(y[1], list) and y[1] \
+                    and all(isinstance(z, list) and len(z) == 3 and isinstance(z[2], int) for z in y[1]):
+                out.append(['ok', ET.canon_files([[p, d.encode('latin1') if isinstance(d, str) else d, m] for p, d, m in y[1]], links)])
+            else:
+                out.append(y)
+        return ['ok', out]
+    return x
 
 
 def describe(t):
@@ -562,3 +580,90 @@ def c16(ctx):
               samples=[{'shape_parents': specs[5][0], 'extra_edges': specs[5][1], 'ignore': specs[5][2], 'policy': specs[5][3], 'impl': res[5][1]}],
               dist={'graph_space_total': total, 'loop_graphs_keep_going': loops, 'loop_error_raised': raised,
                     'cross_device_errors': xdev}, exhaustive=(not quick))
+
+
+# --------------------------------------------------------------------------- update / save
+HASHSETS = [['SHA1'], ['SHA256', 'SHA512'], ['BLAKE2B', 'SHA512'], ['MD5', 'SHA1', 'SHA3_256']]
+
+
+def gen_update_case(r, profile='default', rounds=None):
+    c = GT.Case()
+    t, files, written = GT.build_consistent(r, c)
+    muts = []
+    prior = r.choice(['consistent', 'stale', 'stale', 'absent', 'unregistered', 'stale+unregistered'])
+    if prior == 'absent':
+        for p in list(written):
+            d, name = os.path.split(p)
+            di = t.lookup(d)
+            if di is not None and t.nodes[di]['k'] == 'd':
+                t.unlink(di, name)
+        c.allow_create = True
+        c.meta['manifests'] = []
+    if 'stale' in prior:
+        for _ in range(r.randint(1, 3)):
+            muts.append(GT.mutate(r, c, files, written, r.choice(['content-same-size', 'content-other-size', 'delete', 'stray',
+                                                                  'stray-hidden', 'mtime', 'stray', 'delete', 'file-symlink',
+                                                                  'dangling-link', 'dir-symlink'])))
+    if 'unregistered' in prior:
+        dirs = [d for d in c.meta['dirs'] if t.lookup(d) is not None and t.nodes[t.lookup(d)]['k'] == 'd']
+        for _ in range(r.randint(1, 2)):
+            d = r.choice(dirs)
+            name = r.choice(['Manifest', 'Manifest.gz', 'Manifest.bz2'])
+            p = (d + '/' + name) if d else name
+            if t.lookup(p) is None and p != 'Manifest':
+                kind = r.choice(['valid-empty', 'valid', 'garbage', 'syntax'])
+                text = {'valid-empty': '', 'valid': 'DATA nonexist 0\nIGNORE zz\n', 'garbage': None, 'syntax': 'FOO bar\n'}[kind]
+                if text is None:
+                    data = b'\x00\x01garbage'
+                else:
+                    data = text.encode()
+                    fmt = ET.suffix_of(name)
+                    if fmt:
+                        data = ET.compress(fmt, data)
+                t.add_file(p, data)
+                muts.append('unregistered:' + kind + ':' + p)
+    c.meta['mutations'] = muts
+    c.meta['prior'] = prior
+    c.meta['order_seed'] = r.randint(0, 5)
+    hashes = r.choice(HASHSETS)
+    sort = r.random() < 0.5
+    wm = r.choice([None, None, 0, 60, 200, 100000])
+    fmt = r.choice([None, None, 'gz', 'bz2', 'xz', 'lzma'])
+    c.opts = (hashes, sort, wm, fmt, profile, None, None, False)
+    upath = r.choice([''] * 3 + [d for d in c.meta['dirs'] if d and not d.startswith('.') and '/.' not in d])
+    ops = [['update', upath, [], []],
+           ['save', [], 1 if r.random() < 0.15 else 0, [], [], []],
+           ['files'], ['reload'], ['verify', upath, 0, []]]
+    for _ in range(rounds if rounds is not None else r.choice([0, 0, 1])):
+        ops += [['update', upath, [], []], ['save', [], 0, [], [], []], ['files']]
+    c.ops = ops
+    c.hash_names = set(GT.GOOD_HASHES)
+    return c
+
+
+def c03(ctx):
+    res = c01_impl(ctx, 1200, 20000, gen_update_case, 'tree:update-save',
+                   'update + save: written Manifests / verification afterwards differ from the reference (C03)')
+    fresh_ok = fresh_bad = 0
+    for c, i, m in res:
+        if i[0] != 'ok':
+            continue
+        out = i[1]
+        # update and save both completed: the fresh verification (op 5) must succeed
+        if len(out) >= 5 and out[0][0] == 'ok' and out[1][0] == 'ok':
+            v = out[4]
+            if v[0] == 'ok' and v[1][0] == 1:
+                fresh_ok += 1
+            else:
+                fresh_bad += 1
+                if not known_c03(ctx, c, v):
+                    ctx.violation('spec', f'after a successful update + save a fresh verification fails: {str(v)[:200]}',
+                                  {'meta': {k: v2 for k, v2 in c.meta.items() if k != 'paths'}, 'ops': c.ops,
+                                   'impl': [x if x[0] != 'ok' or not isinstance(x[1], list) or len(str(x)) < 400 else ['ok', '...'] for x in out],
+                                   'tree': describe(c.tree)})
+    ctx.cov['engines']['tree:update-save']['fresh_verification_ok'] = fresh_ok
+    ctx.cov['engines']['tree:update-save']['fresh_verification_failed'] = fresh_bad
+
+
+def known_c03(ctx, c, v):
+    return False
